@@ -130,7 +130,9 @@ func evLineAxis(t *Tracer, axis int, lon0, lat0, alt0, lon1, lat1, alt1 float64,
 			return // (a stored latitude cut into the next row: not an axis-parallel case after all)
 		}
 	}
+	done := lineFlight(p0, p1, H, V)
 	o, res := guard(func() (any, error) { return shape.GetExtendedSpatialIdsOnLine(p0, p1, H, V) })
+	done()
 	e := absW.ev("LineAxis", map[string]any{"axis": axis, "n": d[axis-1],
 		"p0": hexTriple(lon0, lat0, alt0), "p1": hexTriple(lon1, lat1, alt1), "H": H, "V": V})
 	e.O = o
@@ -174,7 +176,9 @@ func evLineAxisCount(t *Tracer, axis int, lon0, lat0, alt0, lon1, lat1, alt1 flo
 			return
 		}
 	}
+	done := lineFlight(p0, p1, H, V)
 	o, res := guard(func() (any, error) { return shape.GetExtendedSpatialIdsOnLine(p0, p1, H, V) })
+	done()
 	e := absW.ev("LineAxisCount", map[string]any{"axis": axis, "n": d[axis-1],
 		"p0": hexTriple(lon0, lat0, alt0), "p1": hexTriple(lon1, lat1, alt1), "H": H, "V": V})
 	e.O = o
@@ -237,9 +241,13 @@ func evLine(t *Tracer, lon0, lat0, alt0, lon1, lat1, alt1 float64, H, V int64, s
 	op := "Line"
 	if sp {
 		op = "LineSp"
+		done := lineFlight(p0, p1, H, H)
 		o, res = guard(func() (any, error) { return shape.GetSpatialIdsOnLine(p0, p1, H) })
+		done()
 	} else {
+		done := lineFlight(p0, p1, H, V)
 		o, res = guard(func() (any, error) { return shape.GetExtendedSpatialIdsOnLine(p0, p1, H, V) })
+		done()
 	}
 	modified := pointBits([]*object.Point{p0, p1}) != before
 	// the voxels of the end points when they are stored once more (known finding D11)
@@ -398,7 +406,9 @@ func evLineLong(t *Tracer, lon0, lat0, alt0, lon1, lat1, alt1 float64, H, V int6
 	if !ok0 || !ok1 {
 		return
 	}
+	done := lineFlight(p0, p1, H, V)
 	o, res := guard(func() (any, error) { return shape.GetExtendedSpatialIdsOnLine(p0, p1, H, V) })
+	done()
 	e := absW.ev("LineLong", map[string]any{"end": relArr(ev, sv),
 		"p0": hexTriple(lon0, lat0, alt0), "p1": hexTriple(lon1, lat1, alt1), "H": H, "V": V})
 	e.O = o
@@ -490,7 +500,9 @@ func evLineTouch(t *Tracer, lon0, lat0, alt0, lon1, lat1, alt1 float64, H, V int
 	if err0 != nil || err1 != nil {
 		return
 	}
+	done := lineFlight(p0, p1, H, V)
 	o, res := guard(func() (any, error) { return shape.GetExtendedSpatialIdsOnLine(p0, p1, H, V) })
+	done()
 	e := absW.ev("LineTouch", map[string]any{"p0": hexTriple(lon0, lat0, alt0), "p1": hexTriple(lon1, lat1, alt1), "H": H, "V": V,
 		"off": []any{}, "n": 0, "distinct": 0})
 	e.O = o
@@ -659,4 +671,45 @@ func init() {
 	}
 	reg("Line", rerunLine(false))
 	reg("LineSp", rerunLine(true))
+}
+
+
+// lineFlight registers the call that is about to be made with the watchdog (core.go): a voxelisation that does not
+// come back, or allocates without bound, is recorded as a `LineCall` event that no clause accepts, and re-executed.
+func lineFlight(p0, p1 *object.Point, H, V int64) func() {
+	e := absW.ev("LineCall", map[string]any{"p0": hexTriple(p0.Lon(), p0.Lat(), p0.Alt()), "p1": hexTriple(p1.Lon(), p1.Lat(), p1.Alt()), "H": H, "V": V})
+	inFlight = &e
+	return func() { inFlight = nil }
+}
+
+func evLineCall(t *Tracer, p0, p1 *object.Point, H, V int64) {
+	done := lineFlight(p0, p1, H, V)
+	e := *inFlight
+	o, res := guard(func() (any, error) { return shape.GetExtendedSpatialIdsOnLine(p0, p1, H, V) })
+	done()
+	e.O = o
+	e.R = []any{int64(len(strs(res)))}
+	if o == "panic" {
+		e.Bad = "panic"
+	}
+	t.Emit(e, true)
+}
+
+func init() {
+	reg("LineCall", func(t *Tracer, w Win, a map[string]any) {
+		pts := []*object.Point{}
+		for _, k := range []string{"p0", "p1"} {
+			var b [3]uint64
+			s, _ := a[k].(string)
+			if n, _ := sscanHex3(s, &b[0], &b[1], &b[2]); n != 3 {
+				return
+			}
+			p, err := object.NewPoint(math.Float64frombits(b[0]), math.Float64frombits(b[1]), math.Float64frombits(b[2]))
+			if err != nil {
+				return
+			}
+			pts = append(pts, p)
+		}
+		evLineCall(t, pts[0], pts[1], decInt(a["H"]), decInt(a["V"]))
+	})
 }
